@@ -4,8 +4,8 @@
    Inductive. *)
 From Coq Require Import ExtrOcamlBasic.
 From Coq Require Import List NArith ZArith.
-From TexModel Require Import Base Tables Chars Tokenizer Tree Reader CLO Buffer Args Views Edit.
+From TexModel Require Import Base Tables Chars Tokenizer Tree Reader CLO Buffer Args Views Edit Regex.
 
 Extraction "model.ml"
   categorize_char categorize tokens_of_string parse estr Tables.punctuation_commands
-  run_clo run_buf run_args run_view run_edit.
+  run_clo run_buf run_args run_view run_edit run_regex.
